@@ -1,4 +1,424 @@
-//! C17 monitor (not written yet).
-use crate::ctx::Ctx;
+//! C17 — the generated JavaScript binding denotes the same service interface.
+//!
+//! Every type-checked program with a main service is compiled by
+//! `candid_parser::bindings::javascript::compile`; the resulting ES module is imported by node 20
+//! (strict mode) against a recording IDL object (js/idl_recorder.mjs). Oracle: the module loads and the
+//! recorded service / init-argument graphs are structurally equal (R3 `requal2`) to the program's
+//! model types. One node process per batch of programs.
+use crate::ctx::{catch, Ctx};
+use crate::model::subtype::requal2;
+use crate::rng::hash_str;
+use serde_json::json;
+use std::path::PathBuf;
 
-pub fn run(_ctx: &mut Ctx) {}
+#[path = "bind_js.rs"]
+pub mod bind_js;
+#[path = "bind_lex.rs"]
+pub mod bind_lex;
+#[path = "bind_prog.rs"]
+pub mod bind_prog;
+#[path = "bind_rs.rs"]
+pub mod bind_rs;
+
+use bind_js::*;
+use bind_prog::*;
+
+/// Modules waiting for the next node run, each with the payload the judge needs.
+pub struct JsBatch<T> {
+    pending: Vec<(String, String, u64, T)>,
+    pub limit: usize,
+    dir: PathBuf,
+    seq: u64,
+    /// node is missing or broken: nothing is executed any more, the run is inconclusive
+    pub dead: bool,
+}
+
+impl<T> JsBatch<T> {
+    pub fn new(ctx: &Ctx, limit: usize) -> Self {
+        JsBatch {
+            pending: Vec::new(),
+            limit,
+            dir: scratch_dir(ctx).join("js"),
+            seq: 0,
+            dead: false,
+        }
+    }
+    /// `wrap`: the source is a definitions-only output (no exports) and is wrapped into a factory.
+    pub fn push(&mut self, ctx: &Ctx, source: &str, wrap: bool, payload: T) {
+        if self.dead {
+            return;
+        }
+        self.seq += 1;
+        let stem = format!("m{:06}", self.seq);
+        let src = if wrap {
+            format!("export default ({{ IDL }}) => {{\n{source}\n}};\n")
+        } else {
+            source.to_string()
+        };
+        self.pending.push((stem, src, ctx.case, payload));
+    }
+    pub fn full(&self) -> bool {
+        self.pending.len() >= self.limit
+    }
+    pub fn flush(&mut self, ctx: &mut Ctx, judge: &mut dyn FnMut(&mut Ctx, &T, &JsResult)) {
+        if self.pending.is_empty() {
+            return;
+        }
+        let items = std::mem::take(&mut self.pending);
+        if self.dead {
+            return;
+        }
+        let mods: Vec<(String, String)> = items.iter().map(|i| (i.0.clone(), i.1.clone())).collect();
+        let current = ctx.case;
+        let results = match run_node_batch(&self.dir, &mods) {
+            Ok(r) => r,
+            Err(NodeError::Missing) => {
+                ctx.count("inconclusive:node-missing");
+                self.dead = true;
+                return;
+            }
+            Err(NodeError::Failed(m)) => {
+                // one module may have taken the whole process down: run them one by one
+                ctx.count("node-batch-retry");
+                let mut all = std::collections::BTreeMap::new();
+                for m1 in &mods {
+                    match run_node_batch(&self.dir, std::slice::from_ref(m1)) {
+                        Ok(r) => all.extend(r),
+                        Err(_) => ctx.count("inconclusive:node-failed"),
+                    }
+                }
+                if all.is_empty() {
+                    eprintln!("node batch failed: {m}");
+                    self.dead = true;
+                    return;
+                }
+                all
+            }
+        };
+        ctx.count("node-runs");
+        for (stem, _, case, payload) in &items {
+            match results.get(stem) {
+                Some(r) => {
+                    ctx.case = *case;
+                    judge(ctx, payload, r);
+                }
+                None => ctx.count("inconclusive:node-no-result"),
+            }
+        }
+        ctx.case = current;
+    }
+}
+
+pub struct C17Item {
+    pub pc: ProgramCase,
+    pub js: String,
+}
+
+fn clip(s: &str, n: usize) -> String {
+    if s.len() <= n {
+        s.to_string()
+    } else {
+        let mut k = n;
+        while !s.is_char_boundary(k) {
+            k -= 1;
+        }
+        format!("{}…(+{} bytes)", &s[..k], s.len() - k)
+    }
+}
+
+/// Signature of a graph mismatch; the two JavaScript-object-key root causes get their own name when the
+/// difference is exactly what they predict.
+pub fn graph_sig(pc: &ProgramCase, place: &str, d: &Diff, notes: &[String]) -> String {
+    use crate::model::misc::label_hash;
+    let has_proto = pc.labels.iter().any(|l| l == "__proto__");
+    if has_proto && (d.missing_ids.contains(&label_hash("__proto__")) || d.missing_methods.iter().any(|m| m == "__proto__"))
+    {
+        return "js|graph-differs|__proto__-key-dropped".to_string();
+    }
+    for l in &pc.labels {
+        if l.len() >= 3 && l.starts_with('_') && l.ends_with('_') && l[1..l.len() - 1].chars().all(|c| c.is_ascii_digit()) {
+            if let Ok(n) = l[1..l.len() - 1].parse::<u64>() {
+                if n <= u32::MAX as u64
+                    && d.missing_ids.contains(&label_hash(l))
+                    && d.observed_ids.contains(&(n as u32))
+                {
+                    return "js|graph-differs|label-_N_-read-as-field-id-N".to_string();
+                }
+            }
+        }
+    }
+    let notes = if notes.is_empty() { String::new() } else { format!("|{}", notes.join(",")) };
+    format!("js|graph-differs|{place}|{}{notes}", d.class)
+}
+
+/// Signature of a module that node could not evaluate; known root causes get their own name.
+pub fn load_error_sig(pc: &ProgramCase, js: &str, stage: &str, name: &str, message: &str) -> String {
+    let class = js_error_class(message);
+    if pc.tags.contains("label:nul+digit") && class.contains("Octal") {
+        return "js|load-error|octal-escape-from-nul+digit".to_string();
+    }
+    for kw in JS_KEYWORDS {
+        if js.contains(&format!("return {kw};")) || js.contains(&format!("return {kw}.getType();")) {
+            return "js|load-error|actor-reference-to-js-keyword-definition-unescaped".to_string();
+        }
+    }
+    if class.contains("has already been declared") && pc.tags.contains("def:js-keyword+escaped-twin") {
+        return "js|load-error|escaped-keyword-collides-with-definition".to_string();
+    }
+    if pc.tags.contains("def:IDL") && message.contains("IDL") {
+        return "js|load-error|definition-named-IDL".to_string();
+    }
+    format!("js|load-error|{stage}|{name}|{class}")
+}
+
+pub fn judge_c17(ctx: &mut Ctx, it: &C17Item, r: &JsResult) {
+    let pc = &it.pc;
+    let input = || json!({"origin": pc.origin, "did": clip(&pc.text, 6000), "js": clip(&it.js, 6000)});
+    let Some(service) = &pc.service else { return };
+    ctx.count("executed");
+    match r {
+        JsResult::Failed { stage, name, message } => {
+            let sig = load_error_sig(pc, &it.js, stage, name, message);
+            ctx.violation(
+                &sig,
+                &format!(
+                    "node could not evaluate the generated module (stage {stage}): {name}: {message}; expected: module loads and \
+                     idlFactory/init return IDL types"
+                ),
+                input(),
+            );
+            ctx.count("outcome:load-error");
+        }
+        JsResult::Loaded { service: Some(g), init } => {
+            let mut bad = false;
+            if g.roots.len() != 1 || !requal2(&pc.model_env, service, &g.env, &g.roots[0]) {
+                bad = true;
+                let d = g
+                    .roots
+                    .first()
+                    .and_then(|r| diff_types(&pc.model_env, service, &g.env, r))
+                    .unwrap_or(Diff {
+                        class: "unclassified".into(),
+                        ..Diff::default()
+                    });
+                ctx.violation(
+                    &graph_sig(pc, "service", &d, &g.notes),
+                    &format!(
+                        "service type rebuilt by the JS factory differs from the program's at {}; expected (model) {} in env {}",
+                        d.path, service, pc.model_env
+                    ),
+                    input(),
+                );
+            }
+            let want_init: Vec<_> = pc.init.clone().unwrap_or_default();
+            match init {
+                Some(gi) => {
+                    if gi.roots.len() != want_init.len() {
+                        bad = true;
+                        ctx.violation(
+                            "js|graph-differs|init|arity",
+                            &format!("init returns {} types, the program has {}", gi.roots.len(), want_init.len()),
+                            input(),
+                        );
+                    } else {
+                        for (k, (w, o)) in want_init.iter().zip(gi.roots.iter()).enumerate() {
+                            if !requal2(&pc.model_env, w, &gi.env, o) {
+                                bad = true;
+                                let d = diff_types(&pc.model_env, w, &gi.env, o).unwrap_or(Diff {
+                                    class: "unclassified".into(),
+                                    ..Diff::default()
+                                });
+                                ctx.violation(
+                                    &graph_sig(pc, "init", &d, &gi.notes),
+                                    &format!(
+                                        "init argument {k} differs at {}; expected {w} in env {}",
+                                        d.path, pc.model_env
+                                    ),
+                                    input(),
+                                );
+                                break;
+                            }
+                        }
+                    }
+                }
+                None => {
+                    bad = true;
+                    ctx.violation("js|no-init-graph", "runner returned no init graph", input());
+                }
+            }
+            ctx.count(if bad { "outcome:graph-differs" } else { "outcome:equal" });
+        }
+        JsResult::Loaded { service: None, .. } => {
+            ctx.violation("js|no-service-graph", "runner returned no service graph", input());
+        }
+    }
+    for t in &pc.tags {
+        ctx.count(&format!("cover:{t}"));
+    }
+    if it.js.contains("IDL.Rec()") {
+        ctx.count("cover:js-rec");
+    }
+    if it.js.contains(".getType()") {
+        ctx.count("cover:js-getType");
+    }
+    if pc.init.as_ref().map(|i| !i.is_empty()).unwrap_or(false) {
+        ctx.count("cover:init-args");
+    }
+    let nm = pc.methods().map(|m| m.len()).unwrap_or(0);
+    if nm > 0 || pc.init.as_ref().map(|i| !i.is_empty()).unwrap_or(false) {
+        ctx.nontrivial(hash_str(&pc.text));
+    }
+    ctx.sample(|| json!({"origin": pc.origin, "did": clip(&pc.text, 1500), "js": clip(&it.js, 1500)}));
+}
+
+/// Compile one case and queue it. Returns false when the case was not queued.
+pub fn submit_c17(ctx: &mut Ctx, batch: &mut JsBatch<C17Item>, pc: ProgramCase) -> bool {
+    if pc.service.is_none() {
+        ctx.count("excluded:no-main-service");
+        return false;
+    }
+    let checked = match check_case(&pc) {
+        Ok(c) => c,
+        Err(m) => {
+            // agreement of the checker with the generator's notion of "well typed" is C12/C14's business
+            ctx.count(&format!("excluded:not-accepted:{}", reject_class(&m)));
+            if std::env::var("VERIF_DEBUG_REJECT").is_ok() {
+                eprintln!("REJECTED case {} ({m}):\n{}\n", ctx.case, pc.text.chars().take(1500).collect::<String>());
+            }
+            return false;
+        }
+    };
+    if checked.actor.is_none() {
+        ctx.count("excluded:checker-sees-no-actor");
+        return false;
+    }
+    let js = match catch(|| candid_parser::bindings::javascript::compile(&checked.env, &checked.actor)) {
+        Ok(s) => s,
+        Err(p) => {
+            ctx.violation(
+                &format!("js|panic|{}", p.sig()),
+                &format!("javascript::compile panicked: {}", p.message),
+                json!({"origin": pc.origin, "did": clip(&pc.text, 6000)}),
+            );
+            return false;
+        }
+    };
+    batch.push(ctx, &js.clone(), false, C17Item { pc, js });
+    true
+}
+
+pub fn run(ctx: &mut Ctx) {
+    if !node_available() {
+        ctx.count("inconclusive:node-missing");
+        return;
+    }
+    let limit = if ctx.only.is_some() { 1 } else { 100 };
+    let mut batch: JsBatch<C17Item> = JsBatch::new(ctx, limit);
+
+    // the repository's own assets (finite family, split over the shards)
+    let assets: Vec<ProgramCase> = asset_cases().into_iter().filter(|c| c.service.is_some()).collect();
+    if !assets.is_empty() {
+        let saved = ctx.max_cases;
+        let n = assets.len() as u64;
+        ctx.max_cases = (n + ctx.nshards - 1) / ctx.nshards.max(1);
+        ctx.cases("assets", 1.0, |ctx, _rng| {
+            let local = ctx.case & ((1 << 40) - 1);
+            if let Some(pc) = assets.get(local as usize) {
+                submit_c17(ctx, &mut batch, pc.clone());
+            }
+        });
+        ctx.max_cases = saved;
+        batch.flush(ctx, &mut judge_c17);
+    }
+
+    // generated programs: one family, the producer is drawn per case (weights in tenths)
+    let adhoc: [(&str, u64, GenCfg); 4] = [
+        (
+            "adhoc-mixed",
+            2,
+            GenCfg {
+                actor: ActorWant::Yes,
+                ..GenCfg::default()
+            },
+        ),
+        (
+            "adhoc-hostile-names",
+            2,
+            GenCfg {
+                actor: ActorWant::Yes,
+                labels: NameMode::Hostile,
+                defs: NameMode::Keywords,
+                docs: DocMode::Hostile,
+                ..GenCfg::default()
+            },
+        ),
+        (
+            "adhoc-keywords",
+            1,
+            GenCfg {
+                actor: ActorWant::Yes,
+                labels: NameMode::Keywords,
+                defs: NameMode::Keywords,
+                max_defs: 7,
+                ..GenCfg::default()
+            },
+        ),
+        (
+            "adhoc-recursive",
+            1,
+            GenCfg {
+                actor: ActorWant::Yes,
+                labels: NameMode::Plain,
+                defs: NameMode::Plain,
+                docs: DocMode::None,
+                max_defs: 8,
+                max_depth: 4,
+                ..GenCfg::default()
+            },
+        ),
+    ];
+    ctx.cases("generated", 1.0, |ctx, rng| {
+        let pick = rng.below(10);
+        let pc = if pick < 6 {
+            let mut acc = 0;
+            let mut chosen = &adhoc[0];
+            for a in adhoc.iter() {
+                acc += a.1;
+                if pick < acc {
+                    chosen = a;
+                    break;
+                }
+            }
+            ctx.count(&format!("producer:{}", chosen.0));
+            Some(gen_case(rng, &chosen.2, &format!("adhoc:{}", chosen.0)))
+        } else if pick < 9 {
+            // the shared generator (crate::prog), always with a main service
+            ctx.count("producer:prog-random");
+            gen_prog_case(rng, &|c| c.actor_pct = 100, "prog:random")
+        } else {
+            ctx.count("producer:prog-hostile");
+            let tweak = |c: &mut crate::prog::ProgCfg| {
+                c.actor_pct = 100;
+                c.hostile_names = true;
+                c.nul_names = true;
+                c.keyword_names = true;
+                c.case_collisions = true;
+            };
+            gen_prog_case(rng, &tweak, "prog:hostile")
+        };
+        match pc {
+            Some(pc) => {
+                submit_c17(ctx, &mut batch, pc);
+            }
+            None => ctx.count("excluded:prog-model-failed"),
+        }
+        if batch.full() {
+            batch.flush(ctx, &mut judge_c17);
+        }
+    });
+    batch.flush(ctx, &mut judge_c17);
+    if batch.dead {
+        ctx.count("inconclusive:node-unusable");
+    }
+    let _ = std::fs::remove_dir_all(scratch_dir(ctx));
+}
